@@ -40,6 +40,7 @@ func (node *Node) processUnconfirmedTx(ctx context.Context, tx handlers.TxData) 
 	if !added {
 		return nil // Already saw this tx
 	}
+	verifPoint("utx.afterMempool")
 
 	// logger.Debug(ctx, "Tx mempool (added %t) (flagged trusted %t) (received trusted %t) : %s",
 	// 	added, trusted, tx.Trusted, hash.String())
